@@ -46,7 +46,8 @@ type evSub struct {
 	cancel      context.CancelFunc
 	mu          sync.Mutex
 	got         []*resource.CollectionChange
-	since       int // number of successful writes before it subscribed
+	copies      []resource.CollectionChange // field-by-field copy taken by the consumer the moment it received the event
+	since       int                         // number of successful writes before it subscribed
 }
 
 func (s *evSub) kind() string {
@@ -114,9 +115,9 @@ func runEventSeq(es evSeq, tie *lib.Tie, mon *lib.Monitor, drv *lib.Driver) {
 		return map[string]any{"kind": "events", "seed": es.Seed, "seq": es.Seq, "steps": n, "trace": tailS(trace, 14)}
 	}
 	step := 0
-	record := func(s *evSub, i int, e *resource.CollectionChange) {
+	record := func(s *evSub, i int, e *resource.CollectionChange, atReceipt resource.CollectionChange) {
 		origin := fmt.Sprintf("Collection.Pull#%d(%s)", i, s.kind())
-		snaps = append(snaps, &evSnap{ptr: e, copy: *e, origin: origin, step: step})
+		snaps = append(snaps, &evSnap{ptr: e, copy: atReceipt, origin: origin, step: step})
 		tr.observe(origin+"/event.OldValue", e.OldValue)
 		tr.observe(origin+"/event.NewValue", e.NewValue)
 	}
@@ -133,8 +134,10 @@ func runEventSeq(es evSeq, tie *lib.Tie, mon *lib.Monitor, drv *lib.Driver) {
 		if !lossy || pace == "drain" {
 			go func() {
 				for e := range s.ch {
+					c := *e
 					s.mu.Lock()
 					s.got = append(s.got, e)
+					s.copies = append(s.copies, c)
 					s.mu.Unlock()
 				}
 			}()
@@ -152,7 +155,7 @@ func runEventSeq(es evSeq, tie *lib.Tie, mon *lib.Monitor, drv *lib.Driver) {
 		for i, s := range subs {
 			s.mu.Lock()
 			for recorded[s] < len(s.got) {
-				record(s, i, s.got[recorded[s]])
+				record(s, i, s.got[recorded[s]], s.copies[recorded[s]])
 				recorded[s]++
 			}
 			s.mu.Unlock()
@@ -166,8 +169,10 @@ func runEventSeq(es evSeq, tie *lib.Tie, mon *lib.Monitor, drv *lib.Driver) {
 				if !ok {
 					return false
 				}
+				c := *e
 				s.mu.Lock()
 				s.got = append(s.got, e)
+				s.copies = append(s.copies, c)
 				s.mu.Unlock()
 				return true
 			default:
@@ -209,6 +214,7 @@ func runEventSeq(es evSeq, tie *lib.Tie, mon *lib.Monitor, drv *lib.Driver) {
 		open(true, mask, []string{"stalled", "stalled", "slow", "drain"}[r.Intn(4)])
 		lines, code = append(lines, fmt.Sprintf("ev sub 1 %d", b2i(mask))), append(code, "ok")
 	}
+	var wrong [][3]string
 	state := map[int]int{} // the harness's own view of the collection: id -> token (plain map, independent of model and code)
 	tok := 0
 	for step = 0; step < es.Steps; step++ {
@@ -288,9 +294,27 @@ func runEventSeq(es evSeq, tie *lib.Tie, mon *lib.Monitor, drv *lib.Driver) {
 					seen = append(seen, e)
 				}
 				parts = append(parts, fmt.Sprintf("#%d:%s", k, showEvent(e)))
+				// the harness's own record of the write (plain map): the event a consumer holds must say exactly that
+				f := strings.Fields(line) // ev send KIND id old new
+				exp := func(t string) string {
+					if t != "-" && s.mask {
+						n := 0
+						fmt.Sscan(t, &n)
+						return fmt.Sprint(1000 + n)
+					}
+					return t
+				}
+				if want := fmt.Sprintf("%s,%s,%s,%s", f[2], f[3], exp(f[4]), exp(f[5])); showEvent(e) != want {
+					wrong = append(wrong, [3]string{fmt.Sprintf("Collection.Pull#%d(%s)", i, s.kind()), want, showEvent(e)})
+				}
 			}
 			s.mu.Unlock()
 		}
+		for _, w := range wrong {
+			mon.Violate(fmt.Sprintf("C07/core-events/%s/event-differs-from-write/%s", w[0][strings.Index(w[0], "(")+1:len(w[0])-1], opKind),
+				"the event object held by "+w[0]+" does not say what the write did (the object is shared with the other subscribers' pipelines)", input(step+1), w[1], w[2])
+		}
+		wrong = nil
 		ans = strings.Join(parts, "|")
 		check(opKind, step+1)
 		au := make([]string, len(seen))
@@ -363,6 +387,140 @@ func runEventSeq(es evSeq, tie *lib.Tie, mon *lib.Monitor, drv *lib.Driver) {
 	tie.Record(key, nsn >= 4 && len(subs) >= 2, input(es.Steps), "lossy-private", private)
 }
 
+// runValueEventSeq: the same for resource.Value. Here even a lossy consumer receives the bus's object (DropExcess keeps
+// the latest pointer, it does not copy), so an unmasked event object is shared by ALL unmasked subscribers. Monitor only
+// (the Lean event model covers the Collection pipelines).
+func runValueEventSeq(es evSeq, mon *lib.Monitor) {
+	r := seqRand(es.Seed, "core-events-value", es.Seq)
+	val := resource.NewValue(resource.WithInitialValue(&traits.FanSpeed{Percentage: 1, PresetIndex: 7}))
+	tr := newTracker()
+	type vsub struct {
+		kind   string
+		ch     <-chan *resource.ValueChange
+		cancel context.CancelFunc
+		pace   string
+		mu     sync.Mutex
+		got    []*resource.ValueChange // pace "drain": a goroutine receives (a write waits for backpressure consumers)
+		taken  int
+	}
+	type vsnap struct {
+		ptr    *resource.ValueChange
+		copy   resource.ValueChange
+		origin string
+		step   int
+		dead   bool
+	}
+	var subs []*vsub
+	var snaps []*vsnap
+	var trace []string
+	defer func() {
+		for _, s := range subs {
+			s.cancel()
+		}
+	}()
+	step := 0
+	open := func() {
+		lossy, mask := r.Intn(2) == 0, r.Intn(3) == 0
+		pace := "drain"
+		if lossy {
+			pace = []string{"stalled", "slow", "drain"}[r.Intn(3)]
+		}
+		opts := []resource.ReadOption{resource.WithBackpressure(!lossy), resource.WithUpdatesOnly(r.Intn(2) == 0)}
+		kind := map[bool]string{true: "lossy-" + pace, false: "backpressure"}[lossy]
+		if mask {
+			opts = append(opts, resource.WithReadMask(&fieldmaskpb.FieldMask{Paths: []string{"percentage"}}))
+			kind += "+mask"
+		}
+		ctx, cancel := context.WithCancel(context.Background())
+		sb := &vsub{kind: kind, ch: val.Pull(ctx, opts...), cancel: cancel, pace: pace}
+		subs = append(subs, sb)
+		if pace == "drain" {
+			go func() {
+				for e := range sb.ch {
+					sb.mu.Lock()
+					sb.got = append(sb.got, e)
+					sb.mu.Unlock()
+				}
+			}()
+		}
+		trace = append(trace, fmt.Sprintf("%d: subscriber #%d: Value.Pull(%s)", step, len(subs)-1, kind))
+	}
+	input := func(n int) map[string]any {
+		return map[string]any{"kind": "events-value", "seed": es.Seed, "seq": es.Seq, "steps": n, "trace": tailS(trace, 14)}
+	}
+	// receive: every consumer that is due takes what its pipeline offers (bounded non-blocking polling)
+	receive := func(all bool) {
+		for i, s := range subs {
+			origin := fmt.Sprintf("Value.Pull#%d(%s)", i, s.kind)
+			take := func(e *resource.ValueChange) {
+				snaps = append(snaps, &vsnap{ptr: e, copy: *e, origin: origin, step: step})
+				tr.observe(origin+"/event.Value", e.Value)
+			}
+			if s.pace == "drain" {
+				for k := 0; k < 100; k++ {
+					runtime.Gosched()
+				}
+				s.mu.Lock()
+				for ; s.taken < len(s.got); s.taken++ {
+					take(s.got[s.taken])
+				}
+				s.mu.Unlock()
+				continue
+			}
+			if !all && (s.pace == "stalled" || (s.pace == "slow" && r.Intn(3) != 0)) {
+				continue
+			}
+			for k := 0; k < 300; k++ {
+				select {
+				case e, ok := <-s.ch:
+					if ok {
+						take(e)
+						k = 0
+					}
+				default:
+					runtime.Gosched()
+				}
+			}
+		}
+	}
+	check := func(opKind string, n int) {
+		for _, sn := range snaps {
+			a, b := sn.ptr, &sn.copy
+			if sn.dead || (a.Value == b.Value && a.ChangeTime.Equal(b.ChangeTime) && a.SeedValue == b.SeedValue && a.LastSeedValue == b.LastSeedValue) {
+				continue
+			}
+			sn.dead = true
+			mon.Violate(fmt.Sprintf("C07/core-events/value/%s/event-changed-by/%s", sn.origin[strings.Index(sn.origin, "(")+1:len(sn.origin)-1], opKind),
+				fmt.Sprintf("an event object received at step %d by %s changed after step %d (%s)", sn.step, sn.origin, step, opKind),
+				input(n), evTok(b.Value), evTok(a.Value))
+		}
+		for _, c := range tr.changed() {
+			mon.Violate(fmt.Sprintf("C07/core-events/value/%s/changed-by/%s", c.Origin[strings.Index(c.Origin, "(")+1:], opKind),
+				fmt.Sprintf("the value of an event received at step %d (%s) changed after step %d (%s)", c.Step, c.Origin, step, opKind),
+				input(n), showMsg(c.copy), showMsg(c.ptr))
+		}
+	}
+	for i, n := 0, 2+r.Intn(2); i < n; i++ {
+		open()
+	}
+	for step = 0; step < es.Steps; step++ {
+		if r.Intn(8) == 0 && len(subs) < 6 {
+			open()
+			mon.Count("op:Value.Pull")
+		} else {
+			_, err := val.Set(&traits.FanSpeed{Percentage: float32(2 + step), PresetIndex: 7})
+			trace = append(trace, fmt.Sprintf("%d: Set(%d) -> %v", step, 2+step, err))
+			mon.Count("op:Value.Set")
+		}
+		receive(false)
+		check("Set", step+1)
+	}
+	step = es.Steps
+	receive(true)
+	check("final-drain", es.Steps)
+	mon.Eval(fmt.Sprintf("value/%d/%d", es.Seed, es.Seq), len(snaps) >= 4, nil)
+}
+
 func b2i(b bool) int {
 	if b {
 		return 1
@@ -377,7 +535,7 @@ func runEvents(f lib.Flags, res *lib.Result) {
 			"each backpressure consumer received, WHICH consumers received the same object (pointers numbered in first-seen order), and the current contents of every event object seen so far; "+
 			"per sequence additionally the model's theorem for lossy consumers (their objects are held by nobody else); non-trivial = at least 2 subscribers and 4 received events; distinct = distinct sequences")
 	mon := res.Monitor("snapshot-core-events",
-		"the same sequences: every event object any consumer receives (shared bus objects, filtered copies, merger output of stalled / slow / drained lossy subscribers) is copied field by field at receipt "+
+		"the same sequences (and as many on a resource.Value, where DropExcess hands the bus's object even to lossy consumers): every event object any consumer receives (shared bus objects, filtered copies, merger output of stalled / slow / drained lossy subscribers) is copied field by field at receipt "+
 			"(kind, id, time, seed flags, identity of old and new value) and compared after every later op and after the final drain; the values go to the snapshot tracker; independent of the Lean model")
 	drv, err := lib.StartDriver(f.Driver)
 	if err != nil {
@@ -395,6 +553,13 @@ func runEvents(f lib.Flags, res *lib.Result) {
 		if tie.Error != "" {
 			break
 		}
+	}
+	for q := 0; q < f.N(60, 2000); q++ {
+		steps := 12
+		if q < 6 {
+			steps = 3 + q
+		}
+		runValueEventSeq(evSeq{Kind: "events-value", Seed: f.Seed, Seq: q, Steps: steps}, mon)
 	}
 	for k, v := range mon.Distribution {
 		tie.Distribution[k] = v
